@@ -278,6 +278,19 @@ def rule5_terminations(ctx, fl):
     ctx.floor('C11.5', 16)
 
 
+def rule1_free(ctx, v):
+    """the destroy walk gives every node back (threads are created and reaped in bounded memory, C13)"""
+    f = ctx.need_fn(v, 'myth_tls_tree_destroy_rec')
+    fr = call_sites(f, 'myth_tls_tree_node_free')
+    np_ = f.param_named('n') or 'a1'
+    rec = call_sites(f, 'myth_tls_tree_destroy_rec')
+    ok = len(fr) == 1 and same_value(f, fr[0].args[1], np_) and f.always_passes(f.entry_inst(), fr) and \
+        not [c for c in rec if c in f.reachable_from(fr[0])]
+    ctx.ob('C11.1', 'myth_tls_tree_destroy_rec: the node is freed on every path, after its children', ok,
+           'myth_tls_tree_node_free(t, n) once the subtrees are gone: nodes beyond the embedded pool come from the heap, a walk that '
+           'forgets them leaks per thread', loc=f.loc)
+
+
 def rule4_delete(ctx, fl):
     """a deleted key is not live: its destructor must not survive in the table the exit walk consults"""
     v = ctx.view(NATIVE, roots=['myth_tls_key_allocator_dealloc'], stops=lib.SPIN_STOPS, flavour=fl)
@@ -308,6 +321,7 @@ def run(ctx):
                                     'myth_tls_tree_destroy', 'myth_tls_key_allocator_alloc'],
                      stops=('myth_tls_tree_node_free', 'myth_free') + lib.SPIN_STOPS, flavour=fl)
         rule123_walk(ctx, v)
+        rule1_free(ctx, v)
         rule4_leaf(ctx, v)
         rule4_delete(ctx, fl)
         rule5_terminations(ctx, fl)
@@ -316,6 +330,8 @@ def run(ctx):
 TLS = 'src/myth_tls_func.h'
 SCHED = 'src/myth_sched_func.h'
 MUTANTS = [
+    {'name': 'destroy walk never frees the nodes (sweep M0576)', 'expect': 'C11.1',
+     'edits': [(TLS, "      c_base += c_stride;\n    }\n  }\n  myth_tls_tree_node_free(t, n);\n  return 0;", "      c_base += c_stride;\n    }\n  }\n  return 0;")]},
     {'name': 'deleted key keeps its destructor (original defect D17)', 'expect': 'C11.4',
      'edits': [(TLS, "  ke->destructor = 0;\n  /* push the cell to the free list */", "  /* push the cell to the free list */")]},
     {'name': 'destructor walk stops at the first empty child (original defect D4a)', 'expect': 'C11.1',
